@@ -235,18 +235,20 @@ def _find_all_unknown_paths(
         for path in session.config["paths"]
     ]
     # Overlapping or repeated paths yield the same unknown paths more than once.
-    return list(
-        dict.fromkeys(
-            itertools.chain.from_iterable(
-                [
-                    _find_all_unknown_paths_per_recursive_node(
-                        node, include_directories
-                    )
-                    for node in recursive_nodes
-                ]
-            )
+    unknown_paths = dict.fromkeys(
+        itertools.chain.from_iterable(
+            [
+                _find_all_unknown_paths_per_recursive_node(node, include_directories)
+                for node in recursive_nodes
+            ]
         )
     )
+    # A path inside a directory which is removed as a whole is not listed again.
+    return [
+        path
+        for path in unknown_paths
+        if not any(parent in unknown_paths for parent in path.parents)
+    ]
 
 
 @define(repr=False)
